@@ -49,7 +49,7 @@ Lemma next_batch_fixed_pc : forall d r,
 Proof.
   intros d r. unfold next_batch. destruct d; [cbn; auto 6|].
   destruct r as [|b r]; [cbn; auto 6|].
-  destruct b as [cs dt]. cbn [b_cmds b_detach].
+  destruct b as [cs dt sc]. cbn [b_cmds b_detach b_script].
   destruct cs; destruct dt; cbn; auto 6.
 Qed.
 
@@ -104,7 +104,8 @@ Proof. intros. apply in_or_app. auto. Qed.
 Theorem step_inv : forall st t, Inv st -> Inv (step v_fixed st t).
 Proof.
   intros st t H. inv_facts H.
-  unfold step. destruct (t_pc (threads st t)) eqn:E.
+  unfold step. destruct (t_pc (threads st t)) eqn:E;
+    cbn [v_fixed v_store_locked v_detach_prewrite v_flusher_swap v_flag_in_writeaof negb andb].
   - (* CMD: lock *)
     destruct (lock st) eqn:EL; [exact H|].
     constructor; cbn [threads lock dirty buf file acked].
@@ -274,6 +275,17 @@ Proof.
     + intros t0 c Hc. split_thread t0 t; cbn [set_pc t_pend] in Hc; eauto.
     + intros t0 Hr. split_thread t0 t; [discriminate|]. eauto.
     + exact HA.
+  - (* FL: lock (only reachable in the flusher_swap variant) *)
+    destruct (lock st) eqn:EL; [exact H|].
+    constructor; cbn [threads lock dirty buf file acked].
+    + intros t0 Heq. injection Heq as <-. rewrite upd_same. reflexivity.
+    + intros t0 Hh. split_thread t0 t; [reflexivity|]. apply HL2 in Hh. congruence.
+    + exact HD.
+    + intros t0 Hf. split_thread t0 t; [discriminate|]. eauto.
+    + intros t0 Hf. split_thread t0 t; [discriminate|]. eauto.
+    + intros t0 c Hc. split_thread t0 t; cbn [set_pc t_pend] in Hc; eauto.
+    + intros t0 Hr. split_thread t0 t; [discriminate|]. eauto.
+    + exact HA.
   - (* F2: flush *)
     constructor; cbn [threads lock dirty buf file acked].
     + intros t0 Heq. split_thread t0 t; [reflexivity|]. eauto.
@@ -322,7 +334,7 @@ Proof. intros progs sched c. apply inv_acked. apply reachable_inv. Qed.
 Lemma step_file_mono : forall v st t c, In c (file st) -> In c (file (step v st t)).
 Proof.
   intros v st t c Hc. unfold step.
-  destruct (t_pc (threads st t)); try destruct (lock st); try destruct (t_cur (threads st t));
+  destruct (t_pc (threads st t)); try destruct (v_flusher_swap v); try destruct (lock st); try destruct (t_cur (threads st t));
     cbn [file]; auto using in_app_l.
 Qed.
 
@@ -366,8 +378,8 @@ Qed.
 (* clearing the flag after the unlock (the pinned order of netServe): two connections, one command each *)
 Theorem store_after_unlock_refuted :
   exists progs sched c,
-    In c (acked (run_sched (mkVariant false true) progs sched)) /\
-    ~ In c (file (run_sched (mkVariant false true) progs sched)).
+    In c (acked (run_sched (mkVariant false true false true) progs sched)) /\
+    ~ In c (file (run_sched (mkVariant false true false true) progs sched)).
 Proof.
   exists f13_progs, f13_sched, 2%N. split.
   - vm_compute. auto.
@@ -377,8 +389,8 @@ Qed.
 (* no pre-write on the goingLive branch: one connection, no interleaving needed *)
 Theorem detach_no_prewrite_refuted :
   exists progs sched c,
-    In c (acked (run_sched (mkVariant true false) progs sched)) /\
-    ~ In c (file (run_sched (mkVariant true false) progs sched)).
+    In c (acked (run_sched (mkVariant true false false true) progs sched)) /\
+    ~ In c (file (run_sched (mkVariant true false false true) progs sched)).
 Proof.
   exists f13b_progs, f13b_sched, 1%N. split.
   - vm_compute. auto.
@@ -391,6 +403,28 @@ Theorem pinned_refuted :
     In c (acked (run_sched v_pinned progs sched)) /\ ~ In c (file (run_sched v_pinned progs sched)).
 Proof.
   exists f13_progs, f13_sched, 2%N. split.
+  - vm_compute. auto.
+  - apply mem_false_not_in. vm_compute. reflexivity.
+Qed.
+
+(* a flusher that clears the flag before it holds the lock *)
+Theorem flusher_swap_refuted :
+  exists progs sched c,
+    In c (acked (run_sched (mkVariant true true true true) progs sched)) /\
+    ~ In c (file (run_sched (mkVariant true true true true) progs sched)).
+Proof.
+  exists fswap_progs, fswap_sched, 1%N. split.
+  - vm_compute. auto.
+  - apply mem_false_not_in. vm_compute. reflexivity.
+Qed.
+
+(* the flag raised by the dispatcher after writeAOF: script writes never raise it *)
+Theorem flag_in_dispatcher_refuted :
+  exists progs sched c,
+    In c (acked (run_sched (mkVariant true true false false) progs sched)) /\
+    ~ In c (file (run_sched (mkVariant true true false false) progs sched)).
+Proof.
+  exists fdisp_progs, fdisp_sched, 1%N. split.
   - vm_compute. auto.
   - apply mem_false_not_in. vm_compute. reflexivity.
 Qed.
